@@ -145,17 +145,17 @@ def goEvalV {T : Type} [Codec T] [Evaluate T FX] (a : Args) : String :=
 
 def goDeriv {T D : Type} [Codec T] [HasDerivative T D] [Nums D FX] (a : Args) : String :=
   match (arg a "p").bind fxList? |>.bind (Codec.dec (T := T)) with
-  | some p => verdict a (.nums (Nums.nums (HasDerivative.derivative p : D)))
+  | some p => verdict a (.nums (Nums.nums (HasDerivative.derivative p : D))) (Mon.calculus "deriv" (arg a "T") ((arg a "p").bind fxList? |>.getD []) [])
   | _ => "bad args"
 
 def goIndef {T I : Type} [Codec T] [HasIntegral T (Knot FX) I] [Nums I FX] (a : Args) : String :=
   match (arg a "p").bind fxList? |>.bind (Codec.dec (T := T)) with
-  | some p => verdict a (.nums (Nums.nums (HasIntegral.indefinite p : I)))
+  | some p => verdict a (.nums (Nums.nums (HasIntegral.indefinite p : I))) (Mon.calculus "indef" (arg a "T") ((arg a "p").bind fxList? |>.getD []) [])
   | _ => "bad args"
 
 def goIntegral {T I : Type} [Codec T] [HasIntegral T (Knot FX) I] [Nums I FX] (a : Args) : String :=
   match (arg a "p").bind fxList? |>.bind (Codec.dec (T := T)), (arg a "k").bind fxList? |>.bind (Codec.dec (T := Knot FX)) with
-  | some p, some k => verdict a (.nums (Nums.nums (HasIntegral.integral p k : I)))
+  | some p, some k => verdict a (.nums (Nums.nums (HasIntegral.integral p k : I))) (Mon.calculus "integral" (arg a "T") ((arg a "p").bind fxList? |>.getD []) ((arg a "k").bind fxList? |>.getD []))
   | _, _ => "bad args"
 
 def goTranslate {T : Type} [Codec T] [Translate T FX] [Nums T FX] (a : Args) : String :=
